@@ -11,12 +11,13 @@ from hypothesis import strategies as st
 
 from .. import gen, loader, universe
 from ..engine import Outcome, Prop
-from ..render import STATEMENT_WORDS, layout_differences, render_script
+from ..render import STATEMENT_WORDS, layout_differences, render_parts, render_script
 
 # statement kinds whose keywords may be re-cased (the property names CREATE TABLE / ALTER TABLE / CREATE INDEX /
 # CREATE SEQUENCE); the other kinds are only re-laid-out
 CASE_KINDS = {"tables", "ctable", "alter", "typed", "seq", "like", "dtable", "xtable"}
 KINDS = ["tables", "ctable", "alter", "typed", "seq", "decl", "drop", "like", "set", "dtable", "xtable"]
+NOTERM_KINDS = ["tables", "ctable", "alter", "typed", "seq", "drop", "like", "dtable", "xtable", "tables", "alter"]
 
 
 @st.composite
@@ -28,12 +29,24 @@ def drawn_layout(draw, max_len=50):
 
 @st.composite
 def model_case(draw, k):
-    blocks = draw(universe.script(1, 2, kinds=KINDS))
+    # one case in five: a script of >= 2 statements written without ';' between them (the parser then finds the statement starts
+    # itself: a line starting with a statement-level word while all parentheses are closed) - layout must not matter there either
+    noterm = draw(st.integers(0, 4)) == 0
+    blocks = draw(universe.script(2, 3, kinds=NOTERM_KINDS)) if noterm else draw(universe.script(1, 2, kinds=KINDS))
     # the relation must hold in every output mode (some attributes, e.g. an index's clustered flag, are only kept by one dialect)
     mode = draw(st.sampled_from(["sql", "sql"] + universe.MODES))
     if any(b["k"] == "alter" and any(op.get("clustered") for op in b["c"]["ops"]) for b in blocks) and draw(st.booleans()):
         mode = "mssql"  # the only mode that reports an index's clustered flag
-    return {"src": "gen", "blocks": blocks, "layouts": [draw(drawn_layout()) for _ in range(k)], "mode": mode}
+    return {"src": "gen", "blocks": blocks, "layouts": [draw(drawn_layout()) for _ in range(k)], "mode": mode, "noterm": noterm}
+
+
+def build(ss, layout, noterm=False, stats=None):
+    if not noterm:
+        return render_script(ss, layout, stats)
+    ss = [[t for t in s if t[1] != "E"] if i < len(ss) - 1 and not isinstance(s, str) else s for i, s in enumerate(ss)]
+    parts = render_parts(ss, layout, stats)
+    # known finding K23: without ';' the first keyword of a statement must not stand alone on its line
+    return "".join(re.sub(r"^(\w+)[ \t]*\r?\n\s*", r"\1 ", p) for p in parts)
 
 
 @st.composite
@@ -171,16 +184,17 @@ class C05(Prop):
             it = universe.corpus()[case["item"]]
             return {"corpus_item": it["src"], "relayout": relayout(it["ddl"], case["choices"], case["crlf"], case.get("_no_carve"))[0]}
         ss = self.stmts(case)
-        return {"canonical": render_script(ss, None), "relayout": render_script(ss, case["layouts"][0])}
+        return {"canonical": build(ss, None, case.get("noterm")), "relayout": build(ss, case["layouts"][0], case.get("noterm"))}
 
     def evaluate(self, case):
         if case["src"] == "corpus":
             return self.evaluate_corpus(case)
         out = Outcome()
         ss = self.stmts(case)
-        canon = render_script(ss, None)
+        noterm = bool(case.get("noterm"))
+        canon = build(ss, None, noterm)
         mode = case.get("mode", "sql")
-        out.label("mode:" + mode)
+        out.label("mode:" + mode, "terminated=%s" % (not noterm))
         r0 = loader.try_parse(canon, output_mode=mode)
         out.parses += 1
         if r0[0] != "ok":
@@ -190,7 +204,7 @@ class C05(Prop):
             out.label("kind:" + b["k"])
         for lay in case["layouts"]:
             stats = {}
-            text = render_script(ss, lay, stats)
+            text = build(ss, lay, noterm, stats)
             if stats.get("K5K6_coerced"):
                 out.label("K5K6_gap_coerced")
             toks = [s for s in ss if not isinstance(s, str)]
@@ -204,7 +218,7 @@ class C05(Prop):
             if r[0] != "ok":
                 out.fail("relayout-exception", "%s: %s\ncanonical=%r\nrelayout =%r" % (r[1], r[2], canon, text))
             elif r[1] != r0[1]:
-                kwonly = render_script(ss, dict(lay, sep=[])) if lay.get("case") else None
+                kwonly = build(ss, dict(lay, sep=[]), noterm) if lay.get("case") else None
                 which = "layout"
                 if kwonly is not None:
                     rk = loader.try_parse(kwonly, output_mode=mode)
